@@ -562,7 +562,7 @@ impl Runner {
                         }
                     }
                     let mut ev = json!({"id": id, "i": i, "act": act, "post": project(&st),
-                        "ret": {"blocks": blocks, "done": stdout.trim_end().ends_with("Done."),
+                        "ret": {"blocks": blocks, "done": status.success(),
                                 "code": status.code().unwrap_or(-1),
                                 "capped": blocks.len() >= MAX_BLOCKS || status.code() == Some(124) || status.code().is_none()}});
                     if let Some(p) = first.take() {
